@@ -11,6 +11,7 @@ import (
 	"simlal/sim"
 
 	"github.com/q191201771/lal/pkg/base"
+	"github.com/q191201771/lal/pkg/hls"
 	"github.com/q191201771/lal/pkg/logic"
 )
 
@@ -180,6 +181,7 @@ func StartWorld(k *sim.Kernel, conf LalConf, mods ...logic.ModOption) *World {
 		o.ConfRawContent = raw
 		o.NotifyHandler = w.Notify
 	}}, mods...)
+	hls.ZzSetFsl(k.FS.Fsl())
 	w.Srv = logic.NewLalServer(all...)
 	k.Go("server.RunLoop", func() {
 		w.runErr = w.Srv.RunLoop()
